@@ -182,6 +182,26 @@ func (ec *evalCtx) specCall(call *ast.CallExpr) Value {
 			}
 		}
 		return And(cs...)
+	case "regFold", "emitFold":
+		// regFold(items, R0, n, prefix, keyField): registry after the first n items: R(0) = R0, R(k+1) = R(k) ∪ {prefix + items[k].keyField}
+		// emitFold(items, R0, n, prefix, keyField, textField): text emitted for the first n items:
+		//   E(0) = "", E(k+1) = E(k) ++ (prefix + items[k].keyField ∈ R(k) ? "" : items[k].textField)
+		sl, ok := arg(0).(*SliceV)
+		if !ok {
+			panic(unsupported("%s: first argument must be a slice", name))
+		}
+		r0, ok := arg(1).(*MapV)
+		if !ok {
+			panic(unsupported("%s: second argument must be a map", name))
+		}
+		n := scalar(arg(2))
+		prefix := scalar(arg(3))
+		keyField := exprString(call.Args[4])
+		textField := ""
+		if name == "emitFold" {
+			textField = exprString(call.Args[5])
+		}
+		return ec.foldModel(name, sl, r0, n, prefix, keyField, textField)
 	case "flat":
 		// flat(ss, n): concatenation of the first n elements of a slice of strings
 		need(2)
@@ -224,6 +244,16 @@ func (ec *evalCtx) specCall(call *ast.CallExpr) Value {
 		// has(m, k): key present in map
 		need(2)
 		return Select(arg(0).(*MapV).Dom, keyTerm(arg(1)))
+	case "monotone":
+		// monotone(A, B): every key of map view A is a key of B
+		need(2)
+		a, b := arg(0).(*MapV), arg(1).(*MapV)
+		k := Var(ec.e().fresher.name("key"), a.K)
+		body := Implies(Select(a.Dom, k), Select(b.Dom, k))
+		if ec.pol > 0 {
+			return body
+		}
+		return Forall([]*Term{k}, body)
 	case "withKey":
 		// withKey(m, k): the map view m with key k added (values unchanged)
 		need(2)
@@ -519,4 +549,69 @@ func (ec *evalCtx) typePos() token.Pos {
 		return ec.fc.body.Lbrace + 1
 	}
 	return token.NoPos
+}
+
+// foldModel: the recursive specification functions of "emit if absent, then
+// record" over a list, as uninterpreted functions of the step number with
+// their defining equations instantiated at the requested step (and unfolded
+// completely for lists of constant length).
+func (ec *evalCtx) foldModel(which string, sl *SliceV, r0 *MapV, n, prefix *Term, keyField, textField string) Value {
+	field := func(i *Term, f string) *Term {
+		el := ec.derefQuiet(sl.At(i))
+		sv, ok := el.(*StructV)
+		if !ok {
+			panic(unsupported("fold: elements are not structs"))
+		}
+		t, ok := sv.F[f].(*Term)
+		if !ok {
+			panic(unsupported("fold: no scalar field %s", f))
+		}
+		return t
+	}
+	key := func(i *Term) *Term { return Concat(prefix, field(i, keyField)) }
+	if n.IsInt() && sl.Len.IsInt() {
+		// constant length: unfold
+		dom := r0.Dom
+		var text *Term = Str("")
+		for k := int64(0); k < n.Int.Int64(); k++ {
+			ik := Int(k)
+			if textField != "" {
+				text = Concat(text, Ite(Select(dom, key(ik)), Str(""), field(ik, textField)))
+			}
+			dom = Store(dom, key(ik), True)
+		}
+		if which == "emitFold" {
+			return text
+		}
+		m := *r0
+		m.Dom = dom
+		return &m
+	}
+	if sl.Name == "" {
+		panic(unsupported("fold over a derived slice with symbolic count"))
+	}
+	id := sl.Name + "|" + r0.Dom.Key() + "|" + prefix.Key() + "|" + keyField
+	tag := fmt.Sprintf("%x", hashString(id))
+	R := func(k *Term) *Term { return App("regFold:"+tag, r0.Dom.Sort, k) }
+	E := func(k *Term) *Term { return App("emitFold:"+tag+":"+textField, SStr, k) }
+	prev := Sub(n, Int(1))
+	ec.st.Assume(Eq(R(Int(0)), r0.Dom))
+	ec.st.Assume(Implies(Gt(n, Int(0)), Eq(R(n), Store(R(prev), key(prev), True))))
+	if which == "regFold" {
+		m := *r0
+		m.Dom = R(n)
+		return &m
+	}
+	ec.st.Assume(Eq(E(Int(0)), Str("")))
+	ec.st.Assume(Implies(Gt(n, Int(0)), Eq(E(n), Concat(E(prev), Ite(Select(R(prev), key(prev)), Str(""), field(prev, textField))))))
+	return E(n)
+}
+
+func hashString(s string) uint64 {
+	var h uint64 = 1469598103934665603
+	for i := 0; i < len(s); i++ {
+		h ^= uint64(s[i])
+		h *= 1099511628211
+	}
+	return h
 }
